@@ -160,6 +160,33 @@ def oversize_history(rng, jump=False):
     return h
 
 
+def big_message_history(rng):
+    """one handshake message whose accumulated size crosses 2^16 (and 2^17) while still incomplete, in record-sized fragments:
+    sizes an accumulated-length counter of 16 bits would wrap at; then the parser is used again"""
+    h = Hist()
+    n = rng.choice((65531, 65532, 65533, 65535, 65536, 65537, 70000, 131071, 131072, 140000, 200000))
+    t, name = rng.choice(((20, 'Finished'), (12, 'ServerKeyExchange'), (15, 'CertificateVerify'), (14, 'ServerDone')))
+    msg = bytes([t]) + n.to_bytes(3, 'big') + rng.randbytes(n)
+    tail = rng.choice((b'', bytes.fromhex('00000000')))
+    frag = rng.choice((16384, 16384, 16640, 9973, 16383))
+    parts = [msg[a:a + frag] for a in range(0, len(msg) - 1, frag)]
+    parts[-1] += tail
+    msgs = ['(Hs (%s %s))' % (name, core.span(4, n))] + (['(Hs HelloRequest)'] if tail else [])
+    for j, part in enumerate(parts):
+        last = j == len(parts) - 1
+        if j == 0:
+            h.cur, h.buflen = 22, len(part)
+        else:
+            h.buflen += len(part)
+        if last:
+            h.cur = None
+            h.emit(step('p', 22, 0x0303, part), 'ok 0 %s' % to_buf(core.lst(msgs)))
+        else:
+            h.emit(step('p', 22, 0x0303, part), 'incomplete ?')
+    h.whole(22, 0x0303, bytes.fromhex('0e000000'), ['(Hs (ServerDone +0))'])
+    return h
+
+
 def overfull_first_fragment(rng):
     """a hand-built first fragment already above 10 MiB (TlsRawRecord.data is not bounded by the parser):
     it is buffered; every later fragment, even an empty one, is refused with TooLarge, state unchanged"""
@@ -220,6 +247,7 @@ def run(ctx):
     hists = [gen_history(rng) for _ in range(n)]
     big = [oversize_history(rng, jump=not ctx.thorough or k > 0) for k in range(3 if ctx.thorough else 1)]
     big.append(overfull_first_fragment(rng))
+    big += [big_message_history(rng) for _ in range(12 if ctx.thorough else 4)]
     hists += big
     lines = ['rp ' + ' '.join(h.steps) for h in hists]
     impl, model = ctx.run_both(lines)
@@ -280,7 +308,7 @@ def run(ctx):
     ctx.sample({'history': rlines[0][:300], 'impl': core.split_side(impl[0])[0][:300], 'model': model[0][:300]})
     common.lean_failure_violation(ctx, ok)
     return ctx.finish(LEVEL,
-        rule='histories over one TlsRecordsParser: handshake / heartbeat payloads split k-ways (k=2..8, cuts anywhere before the end of the first message incl. inside the 4-byte header, empty fragments), whole records of all types, foreign-type records and nocopy calls interleaved (Tag / NonEmpty refusals), resets, chained messages, a 2^24-1 byte message streamed to the 10 MiB cap; each step compared with the accumulate-then-parse oracle (result with buffer-relative spans, defrag_in_progress, buffer length via the hook); plus random op sequences compared with the model; distinct = distinct step outcome shapes',
+        rule='histories over one TlsRecordsParser: handshake / heartbeat payloads split k-ways (k=2..8, cuts anywhere before the end of the first message incl. inside the 4-byte header, empty fragments), whole records of all types, foreign-type records and nocopy calls interleaved (Tag / NonEmpty refusals), resets, chained messages, a 2^24-1 byte message streamed to the 10 MiB cap, messages whose accumulated size crosses 2^16 / 2^17 while incomplete; each step compared with the accumulate-then-parse oracle (result with buffer-relative spans, defrag_in_progress, buffer length via the hook); plus random op sequences compared with the model; distinct = distinct step outcome shapes',
         checker_cmd='cd /verif/lean && lake build TlsModel.Props.C07',
         assumptions=['buffer length and contents observed through the cfg(tls_parser_verif) accessors', 'records within the record-length cap for the buffer bound'])
 
